@@ -7,6 +7,7 @@ CONSTANTS
   EnvBudget = 3
   EditBudget = 2
   AnnBudget = 2
+  EnvKinds = {"unready", "fail", "restart", "dup", "node"}
   MaxPerNode = 4
   AgeCap = 3
   KnownFindings = {}
